@@ -236,8 +236,12 @@ impl Chan {
                 return cr;
             }
             for op in ops.iter_mut() {
-                if let Op::Proc { empty_inactive, .. } = op {
-                    *empty_inactive = false;
+                match op {
+                    Op::Proc { empty_inactive, .. } => *empty_inactive = false,
+                    // per-channel partial lengths are a function of (channel, channel count): the
+                    // single-channel twins could not be given the same lengths
+                    Op::Partial { ragged, .. } => *ragged = None,
+                    _ => {}
                 }
             }
             let mut a = match Runner::<T>::fresh(&cfg, Sig::noise(s1)) {
